@@ -15,13 +15,16 @@ import (
 	"time"
 
 	goat "github.com/avos-io/goat"
+	"github.com/avos-io/goat/gen/goatorepo"
 	"github.com/coder/websocket"
+	"github.com/jonboulle/clockwork"
 	"google.golang.org/grpc"
 	"google.golang.org/grpc/codes"
 	"google.golang.org/grpc/status"
 
 	"goatverif/bed"
 	"goatverif/core"
+	"goatverif/quiesce"
 	"goatverif/svc"
 	"goatverif/wire"
 )
@@ -36,6 +39,61 @@ type slowConn struct {
 	net.Conn
 	n    atomic.Uint64
 	hook atomic.Pointer[func(size int)] // called while a write is half-way
+	wr   atomic.Int64                   // bytes handed to the kernel
+	rd   atomic.Int64                   // bytes taken from the kernel
+}
+
+func (c *slowConn) Read(p []byte) (int, error) {
+	n, err := c.Conn.Read(p)
+	c.rd.Add(int64(n))
+	return n, err
+}
+
+func (c *slowConn) write(p []byte) (int, error) {
+	n, err := c.Conn.Write(p)
+	c.wr.Add(int64(n))
+	return n, err
+}
+
+// wsSocks are the two ends of one loopback connection. Nothing is in flight in the kernel when
+// each end has read exactly what the other wrote.
+type wsSocks struct{ cli, srv *slowConn }
+
+func (w wsSocks) inFlight() (int64, int64) {
+	return w.cli.wr.Load() - w.srv.rd.Load(), w.srv.wr.Load() - w.cli.rd.Load()
+}
+
+// wsSettle waits until cond holds ("ok"), or a state is reached in which nothing can move any
+// more ("stuck"): every goroutine durably blocked or waiting for socket input, no real timer of
+// the library pending, and no byte in flight between the two ends of the connection (both ends
+// are in this process, so socket input can only come from a goroutine that is not blocked). The
+// watchdog expiring is "timeout" (inconclusive).
+func wsSettle(socks wsSocks, watchdog time.Duration, cond func() bool) (string, *quiesce.Snapshot) {
+	deadline := time.Now().Add(watchdog)
+	delay := 200 * time.Microsecond
+	for {
+		if cond() {
+			return "ok", nil
+		}
+		a1, b1 := socks.inFlight()
+		snap := quiesce.Take()
+		a2, b2 := socks.inFlight()
+		if a1 == 0 && b1 == 0 && a2 == 0 && b2 == 0 {
+			if ok, _ := snap.FinalIO(); ok && snap.TimerBlocked() == nil {
+				if cond() {
+					return "ok", snap
+				}
+				return "stuck", snap
+			}
+		}
+		if time.Now().After(deadline) {
+			return "timeout", snap
+		}
+		time.Sleep(delay)
+		if delay < 20*time.Millisecond {
+			delay *= 2
+		}
+	}
 }
 
 func (c *slowConn) Write(p []byte) (int, error) {
@@ -50,7 +108,7 @@ func (c *slowConn) Write(p []byte) (int, error) {
 	}
 	if len(p) > 1 && k%2 == 0 {
 		half := len(p) / 2
-		n, err := c.Conn.Write(p[:half])
+		n, err := c.write(p[:half])
 		if err != nil {
 			return n, err
 		}
@@ -58,23 +116,33 @@ func (c *slowConn) Write(p []byte) (int, error) {
 		if f := c.hook.Load(); f != nil {
 			(*f)(len(p))
 		}
-		m, err := c.Conn.Write(p[half:])
+		m, err := c.write(p[half:])
 		return n + m, err
 	}
-	return c.Conn.Write(p)
+	return c.write(p)
 }
 
-type slowListener struct{ net.Listener }
+type slowListener struct {
+	net.Listener
+	accepted chan *slowConn
+}
 
 func (l slowListener) Accept() (net.Conn, error) {
 	c, err := l.Listener.Accept()
 	if err != nil {
 		return nil, err
 	}
-	return &slowConn{Conn: c}, nil
+	sc := &slowConn{Conn: c}
+	select {
+	case l.accepted <- sc:
+	default:
+	}
+	return sc, nil
 }
 
-func wsPairSlow(ctx context.Context) (srvConn, cliConn *websocket.Conn, cliSock *slowConn, cleanup func(), err error) {
+func wsPairSlow(ctx context.Context) (srvConn, cliConn *websocket.Conn, socks wsSocks, cleanup func(), err error) {
+	var cliSock *slowConn
+	srvSock := make(chan *slowConn, 4)
 	ch := make(chan *websocket.Conn, 1)
 	hold := make(chan struct{})
 	srv := httptest.NewUnstartedServer(http.HandlerFunc(func(w http.ResponseWriter, r *http.Request) {
@@ -86,7 +154,7 @@ func wsPairSlow(ctx context.Context) (srvConn, cliConn *websocket.Conn, cliSock 
 		ch <- c
 		<-hold
 	}))
-	srv.Listener = slowListener{srv.Listener}
+	srv.Listener = slowListener{srv.Listener, srvSock}
 	srv.Start()
 	hc := &http.Client{Transport: &http.Transport{DialContext: func(ctx context.Context, network, addr string) (net.Conn, error) {
 		var d net.Dialer
@@ -100,15 +168,24 @@ func wsPairSlow(ctx context.Context) (srvConn, cliConn *websocket.Conn, cliSock 
 	c, _, err := websocket.Dial(ctx, "ws"+strings.TrimPrefix(srv.URL, "http"), &websocket.DialOptions{HTTPClient: hc})
 	if err != nil {
 		srv.Close()
-		return nil, nil, nil, nil, err
+		return nil, nil, wsSocks{}, nil, err
 	}
 	c.SetReadLimit(4 << 20)
 	select {
 	case s := <-ch:
-		return s, c, cliSock, func() { close(hold); s.CloseNow(); c.CloseNow(); hc.CloseIdleConnections(); srv.Close() }, nil
+		socks = wsSocks{cli: cliSock}
+		select {
+		case socks.srv = <-srvSock:
+		default:
+		}
+		if socks.cli == nil || socks.srv == nil {
+			srv.Close()
+			return nil, nil, wsSocks{}, nil, fmt.Errorf("socket wrappers not in place")
+		}
+		return s, c, socks, func() { close(hold); s.CloseNow(); c.CloseNow(); hc.CloseIdleConnections(); srv.Close() }, nil
 	case <-time.After(10 * time.Second):
 		srv.Close()
-		return nil, nil, nil, nil, fmt.Errorf("accept timeout")
+		return nil, nil, wsSocks{}, nil, fmt.Errorf("accept timeout")
 	}
 }
 
@@ -152,7 +229,7 @@ func wsWorkload(seed int64, idx int, c wsCase, judge string, res *core.Result) {
 	setGMP(c.GMP)
 	ctx, cancel := context.WithTimeout(context.Background(), 60*time.Second)
 	defer cancel()
-	sc, cl, _, cleanup, err := wsPairSlow(ctx)
+	sc, cl, socks, cleanup, err := wsPairSlow(ctx)
 	if err != nil {
 		res.Verdict, res.Note = core.Inconclusive, "websocket setup: "+err.Error()
 		return
@@ -205,7 +282,6 @@ func wsWorkload(seed int64, idx int, c wsCase, judge string, res *core.Result) {
 		}
 		select {
 		case <-allIn:
-		case <-time.After(2 * time.Second):
 		case <-ctx.Done():
 		}
 		return rc.want, nil
@@ -276,15 +352,31 @@ func wsWorkload(seed int64, idx int, c wsCase, judge string, res *core.Result) {
 	close(start)
 	done := make(chan struct{})
 	go func() { wg.Wait(); close(done) }()
-	select {
-	case <-done:
-	case <-time.After(30 * time.Second):
-		res.Verdict, res.Note = core.Inconclusive, "websocket workload did not finish within 30 s (kernel I/O: no final-state argument)"
+	isDone := func() bool {
+		select {
+		case <-done:
+			return true
+		default:
+			return false
+		}
 	}
-	timedOut := res.Verdict == core.Inconclusive
+	st, snap := wsSettle(socks, 45*time.Second, isDone)
+	switch {
+	case st == "stuck" && judge != "isolation":
+		res.ViolateD("ws/calls-never-return", map[string]any{"goat_goroutines": goatParked(snap)}, "calls on a healthy websocket connection never return: every goroutine is blocked, nothing is in flight between the two sockets")
+	case st == "stuck":
+		res.Stat("ws_failed_calls_not_judged_here", 1)
+	case st == "timeout":
+		res.Verdict, res.Note = core.Inconclusive, "websocket workload neither finished nor reached a final state within 45 s"
+	}
+	timedOut := st != "ok"
 	cancel()
 	if timedOut {
-		<-done
+		// the callers may be beyond the reach of their contexts; their records are not read
+		select {
+		case <-done:
+		case <-time.After(5 * time.Second):
+		}
 	}
 	mu.Lock()
 	for _, rc := range order {
@@ -294,7 +386,7 @@ func wsWorkload(seed int64, idx int, c wsCase, judge string, res *core.Result) {
 		case len(rc.seen) == 1 && !bytes.Equal(rc.seen[0], rc.req):
 			res.Violate("ws/handler-saw-a-request-nobody-sent", "%s: handler saw %d bytes starting %q, caller sent %d bytes starting %q", rc.tag, len(rc.seen[0]), head(rc.seen[0]), len(rc.req), head(rc.req))
 		}
-		if timedOut {
+		if timedOut && !isDone() {
 			continue
 		}
 		switch {
@@ -312,7 +404,7 @@ func wsWorkload(seed int64, idx int, c wsCase, judge string, res *core.Result) {
 	}
 	mu.Unlock()
 	for _, sr := range srecs {
-		if timedOut {
+		if timedOut && !isDone() {
 			continue
 		}
 		if len(sr.foreign) > 0 {
@@ -417,10 +509,12 @@ func c01ReplyThenEnd(tier string, seed int64, idx, k int, res *core.Result) {
 func c11WSCancel(tier string, seed int64, idx int, res *core.Result) {
 	victim := []string{"unary-cancel", "unary-deadline", "stream-send-cancel"}[idx%3]
 	res.Sample = map[string]any{"family": "websocket-cancel-mid-write", "victim": victim}
+	res.Retire, res.NonTrivial, res.Evals = true, true, 1
 	setGMP([]int{4, 16, 2}[idx%3])
 	ctx, cancel := context.WithTimeout(context.Background(), 60*time.Second)
 	defer cancel()
-	sc, cl, sock, cleanup, err := wsPairSlow(ctx)
+	sc, cl, socks, cleanup, err := wsPairSlow(ctx)
+	sock := socks.cli
 	if err != nil || sock == nil {
 		res.Verdict, res.Note = core.Inconclusive, fmt.Sprintf("websocket setup: %v", err)
 		return
@@ -466,12 +560,8 @@ func c11WSCancel(tier string, seed int64, idx int, res *core.Result) {
 			outs[i].got, outs[i].err = svc.Invoke(ctx, cc, fmt.Sprintf("inflight%d", i), []byte(fmt.Sprintf("in-%d", i)))
 		}()
 	}
-	deadline := time.Now().Add(20 * time.Second)
-	for int(entered.Load()) < others && time.Now().Before(deadline) {
-		time.Sleep(time.Millisecond)
-	}
-	if int(entered.Load()) < others {
-		res.Verdict, res.Note = core.Inconclusive, "in-flight calls did not reach their handlers within 20 s"
+	if st, _ := wsSettle(socks, 45*time.Second, func() bool { return int(entered.Load()) >= others }); st != "ok" {
+		res.Verdict, res.Note = core.Inconclusive, "in-flight calls did not reach their handlers: "+st
 		close(hold)
 		return
 	}
@@ -508,28 +598,43 @@ func c11WSCancel(tier string, seed int64, idx int, res *core.Result) {
 		_, err := svc.Invoke(m, cc, "victim", big)
 		vdone <- err
 	}()
-	select {
-	case <-vdone:
-	case <-time.After(20 * time.Second):
-		res.Verdict, res.Note = core.Inconclusive, "the cancelled caller did not return within 20 s"
+	chanDone := func(c <-chan struct{}) func() bool {
+		return func() bool {
+			select {
+			case <-c:
+				return true
+			default:
+				return false
+			}
+		}
 	}
-	if !fired.Load() && res.Verdict == core.Held {
+	vret := make(chan struct{})
+	go func() { <-vdone; close(vret) }()
+	switch st, snap := wsSettle(socks, 45*time.Second, chanDone(vret)); st {
+	case "stuck":
+		res.ViolateD("abandoning-call-never-returns/websocket-"+victim, map[string]any{"goat_goroutines": goatParked(snap)}, "%s: the caller that gave up never returns: final state, nothing in flight between the sockets", victim)
+	case "timeout":
+		res.Verdict, res.Note = core.Inconclusive, "the cancelled caller neither returned nor reached a final state within 45 s"
+	}
+	if !fired.Load() && res.Verdict == core.Held && len(res.Violations) == 0 {
 		res.Verdict, res.Note = core.Inconclusive, "no write of the victim was caught half-way"
 	}
 	sock.hook.Store(nil)
 	close(hold)
 	wdone := make(chan struct{})
 	go func() { wg.Wait(); close(wdone) }()
-	select {
-	case <-wdone:
-	case <-time.After(20 * time.Second):
-		if res.Verdict == core.Held {
-			res.Verdict, res.Note = core.Inconclusive, "in-flight calls did not return within 20 s"
+	inflightDone := false
+	if res.Verdict == core.Held && len(res.Violations) == 0 {
+		switch st, snap := wsSettle(socks, 45*time.Second, chanDone(wdone)); st {
+		case "ok":
+			inflightDone = true
+		case "stuck":
+			res.ViolateD("ws/rpc-in-flight-never-completes-after-another-caller-gave-up-mid-write", map[string]any{"goat_goroutines": goatParked(snap)}, "%s: calls in flight on the connection never complete: final state, nothing in flight between the sockets", victim)
+		default:
+			res.Verdict, res.Note = core.Inconclusive, "in-flight calls neither returned nor reached a final state within 45 s"
 		}
-		cancel()
-		<-wdone
 	}
-	if res.Verdict == core.Held {
+	if inflightDone {
 		for i, o := range outs {
 			if o.err != nil || string(o.got) != fmt.Sprintf("reply:in-%d", i) {
 				res.Violate("ws/rpc-in-flight-fails-after-another-caller-gave-up-mid-write", "%s: call %d in flight on the connection: got %q, err %v", victim, i, o.got, o.err)
@@ -537,21 +642,381 @@ func c11WSCancel(tier string, seed int64, idx int, res *core.Result) {
 				res.Stat("other_rpcs", 1)
 			}
 		}
-		pctx, pcancel := context.WithTimeout(ctx, 20*time.Second)
-		got, err := svc.Invoke(pctx, cc, "probe", []byte("probe"))
-		pcancel()
-		switch {
-		case err != nil && pctx.Err() != nil && ctx.Err() == nil && status.Code(err) == codes.DeadlineExceeded:
-			res.Verdict, res.Note = core.Inconclusive, "probe did not return within 20 s"
-		case err != nil || string(got) != "reply:probe":
-			res.Violate("ws/rpc-fails-after-another-caller-gave-up-mid-write", "%s: probe started afterwards: got %q, err %v", victim, got, err)
+		type pr struct {
+			got []byte
+			err error
+		}
+		pch := make(chan pr, 1)
+		pdone := make(chan struct{})
+		var p pr
+		go func() {
+			got, err := svc.Invoke(ctx, cc, "probe", []byte("probe"))
+			pch <- pr{got, err}
+		}()
+		go func() { p = <-pch; close(pdone) }()
+		switch st, snap := wsSettle(socks, 45*time.Second, chanDone(pdone)); st {
+		case "stuck":
+			res.ViolateD("ws/rpc-never-completes-after-another-caller-gave-up-mid-write", map[string]any{"goat_goroutines": goatParked(snap)}, "%s: a call started afterwards never completes: final state, nothing in flight between the sockets", victim)
+		case "timeout":
+			res.Verdict, res.Note = core.Inconclusive, "probe neither returned nor reached a final state within 45 s"
 		default:
-			res.Stat("probes_completed", 1)
-			res.Stat("ws_cancel_mid_write_cases", 1)
+			if p.err != nil || string(p.got) != "reply:probe" {
+				res.Violate("ws/rpc-fails-after-another-caller-gave-up-mid-write", "%s: probe started afterwards: got %q, err %v", victim, p.got, p.err)
+			} else {
+				res.Stat("probes_completed", 1)
+				res.Stat("ws_cancel_mid_write_cases", 1)
+			}
 		}
 	}
+	cancel()
 	res.Stat("abandonments", 1)
 	res.NonTrivial = true
 	res.Evals = 1
 	res.Retire = true
+}
+
+// c07WSCancel: over the shipped websocket transport a streaming call is cancelled (or its deadline
+// fires) while one of its own sends is half-way onto the socket. The blocked send returns, later
+// receives fail with the context's status, and the handler's context is cancelled.
+func c07WSCancel(tier string, seed int64, idx int, c c07Case, res *core.Result) {
+	setGMP(c.GMP)
+	res.Retire, res.NonTrivial, res.Evals = true, true, 1
+	ctx, cancel := context.WithTimeout(context.Background(), 120*time.Second)
+	defer cancel()
+	sc, cl, socks, cleanup, err := wsPairSlow(ctx)
+	if err != nil {
+		res.Verdict, res.Note = core.Inconclusive, fmt.Sprintf("websocket setup: %v", err)
+		return
+	}
+	defer cleanup()
+	goat.VerifResetTracking()
+	impl := svc.NewImpl()
+	srv := goat.NewServer("srv")
+	srv.RegisterService(&svc.Desc, impl)
+	go srv.Serve(ctx, goat.NewGoatOverWebsocket(sc))
+	cc := goat.NewClientConn(goat.NewGoatOverWebsocket(cl), "c0", "srv")
+	var entered, ctxDone atomic.Bool
+	impl.DefS = func(tag, kind string, ss grpc.ServerStream) error {
+		m := new(svc.BV)
+		if ss.RecvMsg(m) == nil {
+			entered.Store(true)
+		}
+		for ss.RecvMsg(new(svc.BV)) == nil {
+		}
+		select {
+		case <-ss.Context().Done():
+			ctxDone.Store(true)
+		case <-ctx.Done():
+		}
+		return ss.Context().Err()
+	}
+	m := svc.NewManualCtx(ctx)
+	st, err := svc.Open(m, cc, "bidi", fmt.Sprintf("wsc%d", idx), nil)
+	if err == nil {
+		err = st.Send([]byte("first"))
+	}
+	if err != nil {
+		res.Verdict, res.Note = core.Inconclusive, "stream did not open: "+err.Error()
+		return
+	}
+	if s, _ := wsSettle(socks, 45*time.Second, entered.Load); s != "ok" {
+		res.Verdict, res.Note = core.Inconclusive, "handler did not start: "+s
+		return
+	}
+	var fired atomic.Bool
+	hook := func(size int) {
+		if size >= 2048 && fired.CompareAndSwap(false, true) {
+			if c.How == "deadline" {
+				m.Fire()
+			} else {
+				m.Cancel()
+			}
+			time.Sleep(5 * time.Millisecond)
+		}
+	}
+	socks.cli.hook.Store(&hook)
+	sendRet := make(chan struct{})
+	go func() { st.Send(wsPayload("victim", 5)); close(sendRet) }()
+	isClosed := func(c <-chan struct{}) func() bool {
+		return func() bool {
+			select {
+			case <-c:
+				return true
+			default:
+				return false
+			}
+		}
+	}
+	switch s, snap := wsSettle(socks, 45*time.Second, isClosed(sendRet)); s {
+	case "stuck":
+		res.ViolateD("client-operation-hangs-after-cancel/websocket-send-half-written", map[string]any{"goat_goroutines": goatParked(snap)}, "%s while a send was half-way onto the socket: the send never returns", c.How)
+		return
+	case "timeout":
+		res.Verdict, res.Note = core.Inconclusive, "send neither returned nor reached a final state within 45 s"
+		return
+	}
+	socks.cli.hook.Store(nil)
+	if !fired.Load() {
+		res.Verdict, res.Note = core.Inconclusive, "no write of the stream was caught half-way"
+		return
+	}
+	res.Stat("cancellations_checked", 1)
+	// later receive: the context's status
+	recvRet := make(chan struct{})
+	var rerr error
+	go func() { _, rerr = st.Recv(); close(recvRet) }()
+	switch s, snap := wsSettle(socks, 45*time.Second, isClosed(recvRet)); s {
+	case "stuck":
+		res.ViolateD("later-operation-hangs-after-cancel/websocket-send-half-written", map[string]any{"goat_goroutines": goatParked(snap)}, "%s: a receive after the cancellation never returns", c.How)
+		return
+	case "timeout":
+		res.Verdict, res.Note = core.Inconclusive, "receive neither returned nor reached a final state within 45 s"
+		return
+	}
+	want := codes.Canceled
+	if c.How == "deadline" {
+		want = codes.DeadlineExceeded
+	}
+	if status.Code(rerr) != want {
+		res.Violate("receive-after-cancel-wrong-result/"+c.How, "websocket: receive after %s returned %v, want code %v", c.How, rerr, want)
+	}
+	// the handler's context
+	switch s, snap := wsSettle(socks, 60*time.Second, ctxDone.Load); s {
+	case "stuck":
+		res.ViolateD("handler-left-running-with-live-context/websocket-send-half-written", map[string]any{"goat_goroutines": goatParked(snap)}, "%s while a send was half-way onto the socket: in a final state (nothing in flight between the sockets) the handler's context is still live", c.How)
+	case "timeout":
+		res.Verdict, res.Note = core.Inconclusive, "handler context neither cancelled nor final state within 60 s"
+	default:
+		res.Stat("handler_contexts_checked", 1)
+		res.Stat("ws_cancel_mid_write_cases", 1)
+		res.Stat("resets_observed", 1)
+	}
+	res.NonTrivial = true
+	res.Evals = 1
+	res.Retire = true
+	cancel()
+}
+
+// c02HTTPSlowReceiver: client and server talk over the shipped HTTP transport (two GoatOverHttp
+// instances behind loopback servers, on a fake clock). The handler sends a burst and returns
+// success; the caller starts receiving only after the burst has backed up into the transport and
+// three seconds (of the transport's clock) have passed. Every Send succeeded: the caller must get
+// every message in order and then io.EOF. Wall-clock bounds expiring are inconclusive.
+func c02HTTPSlowReceiver(tier string, seed int64, idx, j int, res *core.Result) {
+	burst := 5 + j%4
+	kind := []string{"server", "bidi"}[j%2]
+	res.Sample = map[string]any{"family": "http-slow-receiver", "kind": kind, "burst": burst}
+	res.Retire, res.NonTrivial, res.Evals = true, true, 1
+	setGMP([]int{4, 16}[j%2])
+	ctx, cancel := context.WithTimeout(context.Background(), 90*time.Second)
+	defer cancel()
+	fc := clockwork.NewFakeClock()
+	ident := func(src string) (string, error) { return src, nil }
+	tsS := httptest.NewUnstartedServer(nil)
+	tsC := httptest.NewUnstartedServer(nil)
+	srvAddr, cliAddr := tsS.Listener.Addr().String(), tsC.Listener.Addr().String()
+	goat.VerifResetTracking()
+	impl := svc.NewImpl()
+	srv := goat.NewServer(srvAddr)
+	srv.RegisterService(&svc.Desc, impl)
+	gS := goat.NewGoatOverHttp(func(id string, rw goat.RpcReadWriter) { go srv.Serve(ctx, rw) }, ident, goat.WithClock(fc))
+	gC := goat.NewGoatOverHttp(func(id string, rw goat.RpcReadWriter) {}, ident, goat.WithClock(fc))
+	tsS.Config.Handler, tsC.Config.Handler = gS, gC
+	tsS.Start()
+	tsC.Start()
+	defer func() { cancel(); gS.Cancel(); gC.Cancel(); tsS.Close(); tsC.Close() }()
+	var sendErr atomic.Value
+	handlerDone := make(chan struct{})
+	tag := fmt.Sprintf("hsr%d", idx)
+	impl.SetStream(tag, func(t, k string, ss grpc.ServerStream) error {
+		defer close(handlerDone)
+		if k == "server" {
+			ss.RecvMsg(new(svc.BV))
+		}
+		for i := 0; i < burst; i++ {
+			if err := ss.SendMsg(&svc.BV{Value: []byte(fmt.Sprintf("m%d", i))}); err != nil {
+				sendErr.Store(err)
+				return err
+			}
+		}
+		return nil
+	})
+	cc := goat.NewClientConn(gC.NewConnection(srvAddr), cliAddr, srvAddr)
+	st, err := svc.Open(ctx, cc, kind, tag, []byte("q"))
+	if err != nil {
+		res.Verdict, res.Note = core.Inconclusive, "open over HTTP failed: "+err.Error()
+		return
+	}
+	// the caller is busy elsewhere: the burst backs up into the transport, and time passes there
+	time.Sleep(500 * time.Millisecond)
+	fc.Advance(3 * time.Second)
+	time.Sleep(100 * time.Millisecond)
+	var got []string
+	var end error
+	done := make(chan struct{})
+	go func() {
+		defer close(done)
+		for {
+			m, err := st.Recv()
+			if err != nil {
+				end = err
+				return
+			}
+			got = append(got, string(m))
+		}
+	}()
+	select {
+	case <-done:
+	case <-time.After(30 * time.Second):
+		res.Verdict, res.Note = core.Inconclusive, "receiver did not finish within 30 s (kernel I/O: no final-state argument)"
+		return
+	}
+	select {
+	case <-handlerDone:
+	case <-time.After(10 * time.Second):
+		res.Verdict, res.Note = core.Inconclusive, "handler did not finish within 10 s"
+		return
+	}
+	if e := sendErr.Load(); e != nil {
+		res.Verdict, res.Note = core.Inconclusive, fmt.Sprintf("a Send in the handler failed (not the scenario): %v", e)
+		return
+	}
+	var want []string
+	for i := 0; i < burst; i++ {
+		want = append(want, fmt.Sprintf("m%d", i))
+	}
+	if strings.Join(got, ",") != strings.Join(want, ",") {
+		res.Violate("caller-sequence-differs/http-slow-receiver", "over the HTTP transport every Send of the handler succeeded and it returned success, but the slow caller received [%s], sent [%s]", strings.Join(got, ","), strings.Join(want, ","))
+	} else if end != io.EOF {
+		res.Violate("successful-stream-reported-failed/http-slow-receiver", "over the HTTP transport the handler returned success but the caller observed %v", end)
+	} else {
+		res.Stat("http_slow_receiver_cases", 1)
+	}
+}
+
+// c19WSAbandonedWrite: a Write on the websocket transport whose context ends while its frame is
+// half-way onto the socket returns; the transport stays usable: later Writes return, and every
+// envelope whose Write returned nil is read on the other end, in write order.
+func c19WSAbandonedWrite(tier string, idx int, res *core.Result) {
+	setGMP([]int{4, 16, 2}[idx%3])
+	ctx, cancel := context.WithTimeout(context.Background(), 120*time.Second)
+	defer cancel()
+	sc, cl, socks, cleanup, err := wsPairSlow(ctx)
+	if err != nil {
+		res.Verdict, res.Note = core.Inconclusive, fmt.Sprintf("websocket setup: %v", err)
+		return
+	}
+	defer cleanup()
+	a, b := goat.NewGoatOverWebsocket(cl), goat.NewGoatOverWebsocket(sc)
+	if idx%2 == 1 {
+		a, b = b, a // the server end writes
+		socks.cli, socks.srv = socks.srv, socks.cli
+	}
+	var rmu sync.Mutex
+	var got []uint64
+	startReading := make(chan struct{})
+	go func() {
+		select {
+		case <-startReading:
+		case <-ctx.Done():
+			return
+		}
+		for {
+			e, err := b.Read(ctx)
+			if err != nil {
+				return
+			}
+			rmu.Lock()
+			got = append(got, e.GetId())
+			rmu.Unlock()
+		}
+	}()
+	wctx, wcancel := context.WithCancel(ctx)
+	var fired atomic.Bool
+	hook := func(size int) {
+		if size >= 2048 && fired.CompareAndSwap(false, true) {
+			wcancel()
+			time.Sleep(5 * time.Millisecond)
+		}
+	}
+	socks.cli.hook.Store(&hook)
+	env := func(id uint64, n int) *wire.Rpc {
+		return &wire.Rpc{Id: id, Header: &goatorepo.RequestHeader{Method: "/x/y", Source: "a", Destination: "b"}, Body: &goatorepo.Body{Data: bytes.Repeat([]byte{byte(id)}, n)}}
+	}
+	var accepted []uint64
+	isClosed := func(c <-chan struct{}) func() bool {
+		return func() bool {
+			select {
+			case <-c:
+				return true
+			default:
+				return false
+			}
+		}
+	}
+	write := func(wc context.Context, e *wire.Rpc, what string) bool {
+		done := make(chan struct{})
+		var werr error
+		go func() { werr = a.Write(wc, e); close(done) }()
+		switch s, snap := wsSettle(socks, 45*time.Second, isClosed(done)); s {
+		case "stuck":
+			res.ViolateD("websocket-write-never-returns/"+what, map[string]any{"goat_goroutines": goatParked(snap)}, "%s: Write of envelope %d never returns: every goroutine blocked, nothing in flight between the sockets", what, e.GetId())
+			return false
+		case "timeout":
+			res.Verdict, res.Note = core.Inconclusive, what+": Write neither returned nor reached a final state within 45 s"
+			return false
+		}
+		if werr == nil {
+			accepted = append(accepted, e.GetId())
+		}
+		return true
+	}
+	if !write(wctx, env(1, 200000), "write abandoned half-way") {
+		return
+	}
+	socks.cli.hook.Store(nil)
+	wcancel()
+	if !fired.Load() {
+		res.Verdict, res.Note = core.Inconclusive, "no write was caught half-way"
+		return
+	}
+	close(startReading)
+	for id := uint64(2); id <= 4; id++ {
+		if !write(ctx, env(id, []int{10, 9000, 100}[id-2]), "write after an abandoned write") {
+			return
+		}
+	}
+	want := len(accepted)
+	s, _ := wsSettle(socks, 45*time.Second, func() bool {
+		rmu.Lock()
+		defer rmu.Unlock()
+		n := 0
+		for _, g := range got {
+			for _, a := range accepted {
+				if g == a {
+					n++
+				}
+			}
+		}
+		return n >= want
+	})
+	rmu.Lock()
+	defer rmu.Unlock()
+	if s == "timeout" {
+		res.Verdict, res.Note = core.Inconclusive, "reader neither got the envelopes nor reached a final state within 45 s"
+		return
+	}
+	// the accepted ones, in order (the abandoned one may or may not arrive, but only first)
+	var seq []uint64
+	for _, g := range got {
+		if g != 1 || (len(accepted) > 0 && accepted[0] == 1) {
+			seq = append(seq, g)
+		}
+	}
+	if fmt.Sprint(seq) != fmt.Sprint(accepted) {
+		res.Violate("websocket-envelope-lost-or-reordered-after-abandoned-write", "Writes that returned nil: %v; read on the other end: %v", accepted, got)
+	} else {
+		res.Stat("ws_abandoned_write_cases", 1)
+	}
+	res.Evals = 4
 }
